@@ -555,40 +555,44 @@ func checkVerify(c VerifyCase, r *kit.R) {
 		return
 	}
 	ds := zct.DigitallySigned{HashAlgorithm: zct.HashAlgorithm(c.DSHash), SignatureAlgorithm: zct.SignatureAlgorithm(c.DSAlg), Signature: sig}
-	var err error
-	if p.STH {
-		err = ver.VerifySTHSignature(p.zSTH(ds))
-	} else {
-		sct, e := p.zSCT(ds)
-		err = ver.VerifySCTSignature(sct, e)
-	}
 	if c.InMut != inNone || c.SigMut != sigNone || c.VKey != c.Key {
 		r.NonTrivial()
 	}
-	switch want {
-	case mustAccept:
-		r.Class("accept")
-		if err != nil {
-			r.Failf("C16:verify-rejects-genuine", "genuine signature (%s) rejected: %v", why, err)
-		}
-	case mustReject:
-		r.Class("reject")
-		if err == nil {
-			r.Failf("C16:verify-accepts-forgery", "signature accepted although the oracle says %q (in-mut %d, sig-mut %d, ds hash %d alg %d, sign hash %d, key %s, vkey %s)",
-				why, c.InMut, c.SigMut, c.DSHash, c.DSAlg, c.SignHash, keys.Get(c.Key).Name, vk.Name)
-		}
-	default:
-		if err == nil {
-			r.Class("malleable-encoding-accepted")
+	// a verifier is made once per log and used for many objects: the verdict on the same object
+	// must be the same on every use (three uses of the one verifier)
+	for use := 1; use <= 3; use++ {
+		var err error
+		if p.STH {
+			err = ver.VerifySTHSignature(p.zSTH(ds))
 		} else {
-			r.Class("malleable-encoding-rejected")
+			sct, e := p.zSCT(ds)
+			err = ver.VerifySCTSignature(sct, e)
+		}
+		switch want {
+		case mustAccept:
+			r.Class("accept")
+			if err != nil {
+				r.Failf("C16:verify-rejects-genuine", "genuine signature (%s) rejected on use %d of the verifier: %v", why, use, err)
+			}
+		case mustReject:
+			r.Class("reject")
+			if err == nil {
+				r.Failf("C16:verify-accepts-forgery", "signature accepted on use %d of the verifier although the oracle says %q (in-mut %d, sig-mut %d, ds hash %d alg %d, sign hash %d, key %s, vkey %s)",
+					use, why, c.InMut, c.SigMut, c.DSHash, c.DSAlg, c.SignHash, keys.Get(c.Key).Name, vk.Name)
+			}
+		default:
+			if err == nil {
+				r.Class("malleable-encoding-accepted")
+			} else {
+				r.Class("malleable-encoding-rejected")
+			}
 		}
 	}
 }
 
 func TestPropVerify(t *testing.T) {
 	kit.Run(t, kit.Spec[VerifyCase]{ID: "C16", Name: "verify", Gen: genVerifyCase, Check: checkVerify, Quick: 1500, Thorough: 10000,
-		Rule: "an SCT+entry or STH is signed with a pool log key (RSA 2048..4096 incl. multi-prime, ECDSA P-256; occasionally non-compliant keys) by the Go standard library over the harness-side RFC 6962 signature input (deterministic signatures), then one input mutation (timestamp, certificate/TBS bit, extensions, entry type, key hash/root hash, tree size, version, leaf type, or only fields outside the signed structure) and/or one signature mutation (bit flip, truncation, trailing junk, empty, junk inside the ECDSA SEQUENCE, padded integer, signature over the other signature_type, zero/negative r,s), other verifier key, other declared/used hash or algorithm id is applied. VerifySCTSignature/VerifySTHSignature must accept iff std verification of the reference input of the PRESENTED object with the verifier's key accepts (SHA-256 only); a genuine (r,s) or RSA integer in a non-canonical encoding may go either way. Non-trivial: any mutation or foreign verifier key; distinct by case hash",
+		Rule: "an SCT+entry or STH is signed with a pool log key (RSA 2048..4096 incl. multi-prime, ECDSA P-256; occasionally non-compliant keys) by the Go standard library over the harness-side RFC 6962 signature input (deterministic signatures), then one input mutation (timestamp, certificate/TBS bit, extensions, entry type, key hash/root hash, tree size, version, leaf type, or only fields outside the signed structure) and/or one signature mutation (bit flip, truncation, trailing junk, empty, junk inside the ECDSA SEQUENCE, padded integer, signature over the other signature_type, zero/negative r,s), other verifier key, other declared/used hash or algorithm id is applied. VerifySCTSignature/VerifySTHSignature must accept iff std verification of the reference input of the PRESENTED object with the verifier's key accepts (SHA-256 only); a genuine (r,s) or RSA integer in a non-canonical encoding may go either way; each object is presented three times to the one verifier and every verdict is held against the oracle. Non-trivial: any mutation or foreign verifier key; distinct by case hash",
 		Assumptions: []string{"acceptance of a genuine ECDSA (r,s) wrapped in a non-canonical encoding (trailing bytes, extra SEQUENCE elements) is malleability outside the signed bytes and not a violation",
 			"keys that NewSignatureVerifier refuses (RFC 6962 s2.1.4) are outside the domain"}})
 }
